@@ -488,6 +488,92 @@ class SdfVal:
         raise Unsupported(f"sdflit.{self.kind}.{name}")
 
 
+MATERIAL = z3.Function("sdf_material", R, R, R, z3.IntSort())  # ghost term: the material handle built from a colour
+SCENE_ROW_KINDS = ["int"] + ["real"] * 8 + ["ref"]  # (tag 0 Sphere / 1 RoundCone, a xyz, b xyz, ra, rb, material)
+
+
+class MaterialVal:
+    """ColoredMaterial((r, g, b)): an opaque handle that is a ghost term of the colour; `.into()` is the identity"""
+
+    def __init__(self, z):
+        self.z = z
+
+    def __pyvc_getattr__(self, eng, name):
+        if name == "into":
+            return NativeMethod(lambda e, r, a, k: r, self, name)
+        raise Unsupported(f"sdflit.ColoredMaterial.{name}")
+
+
+class SceneVal:
+    """sdflit.ObjectsScene(): a record of what the glue code did to it -- the background colour, the objects added (in order;
+    one row (tag, a, b, ra, rb, material) per SDFObject), whether build_bvh ran after the last add_object.  `.into()` is the
+    identity.  What the compiled sampler does with the scene is not modelled here (it renders the union of the objects over the
+    background: cross-checked natively, see the report); `objects` is the ghost view contracts speak about."""
+
+    def __init__(self):
+        self.objects = PList([])
+        self.objects.name = "scene_objects"
+        self.background = None
+        self.built = False
+        self.uid = next_uid()
+
+    def __pyvc_getattr__(self, eng, name):
+        if name == "objects":  # ghost attribute (contracts: modifies expressions, clauses); sdflit has no such attribute and the carriers never read it
+            return self.objects
+        if name in ("set_background", "add_object", "build_bvh", "into"):
+            return NativeMethod(getattr(SceneVal, "_m_" + name), self, name)
+        raise Unsupported(f"sdflit.ObjectsScene.{name}")
+
+    def __pyvc_snapshot__(self, memo):
+        from .values import snapshot
+
+        c = SceneVal.__new__(SceneVal)
+        c.objects, c.background, c.built, c.uid = snapshot(self.objects, memo), self.background, self.built, self.uid
+        return c
+
+    @staticmethod
+    def _m_set_background(eng, recv, args, kwargs):
+        used(eng, "sdflit.ObjectsScene: set_background / add_object / build_bvh only record (background colour, object appended to the scene's list, index built); into() is the identity")
+        recv.background = tuple(_tuple3(eng, args[0], "set_background"))
+        return None
+
+    @staticmethod
+    def _m_add_object(eng, recv, args, kwargs):
+        used(eng, "sdflit.ObjectsScene: set_background / add_object / build_bvh only record (background colour, object appended to the scene's list, index built); into() is the identity")
+        (obj,) = args
+        if not isinstance(obj, SdfVal) or obj.kind != "SDFObject":
+            raise ProgExc(TypeError, "add_object expects an SDFObject")
+        sdf, mat = obj.params
+        if not hasattr(mat, "z"):
+            raise ProgExc(TypeError, "SDFObject material")
+        row = tuple([SDF_TAG[sdf.kind]] + list(sdf.params) + [Sym(mat.z, "ref")])
+        eng.models.LIST_METHODS["append"](eng, recv.objects, [row], {})
+        recv.built = False
+        return None
+
+    @staticmethod
+    def _m_build_bvh(eng, recv, args, kwargs):
+        recv.built = True
+        return None
+
+    @staticmethod
+    def _m_into(eng, recv, args, kwargs):
+        return recv
+
+
+def _colored_material(eng, args, kwargs):
+    used(eng, "sdflit.ColoredMaterial(colour): an opaque material handle (a ghost term of the colour)")
+    if len(args) != 1:
+        raise ProgExc(TypeError, "ColoredMaterial(color)")
+    return MaterialVal(MATERIAL(*[to_z3(x, "real") for x in _tuple3(eng, args[0], "ColoredMaterial")]))
+
+
+def _objects_scene(eng, args, kwargs):
+    if args or kwargs:
+        raise ProgExc(TypeError, "ObjectsScene()")
+    return SceneVal()
+
+
 def _tuple3(eng, v, what):
     if not isinstance(v, tuple) or len(v) != 3 or any(kind_of(x) is None for x in v):
         raise ProgExc(TypeError, f"{what}: argument must be a tuple of 3 floats")
@@ -563,5 +649,7 @@ def install():
         EXTRA_MODELS[sdflit.RoundCone] = _round_cone
         EXTRA_MODELS[sdflit.SDFObject] = _sdf_object
         EXTRA_MODELS[sdflit.RangeSampler] = _range_sampler
+        EXTRA_MODELS[sdflit.ColoredMaterial] = _colored_material
+        EXTRA_MODELS[sdflit.ObjectsScene] = _objects_scene
     except ImportError:  # pragma: no cover
         pass
